@@ -56,7 +56,8 @@ Definition stream_line (spec : bool) (e : sexp) : sexp :=
   end.
 
 (* ---- (inputs (mode <r> <t> <s> <n>) <query> <stdin> (<src>…) (<out>…)) ---------------------
-   <r> <t> <s> <n> = 0|1 for -R --stream -s -n;  <query> = id | pair | inputs | (inputk <k>)
+   <r> <t> <s> <n> = 0|1 for -R --stream -s -n;  <query> = id | pair | inputs | (inputk <k>) | iter | (prog <stage>…),
+   <stage> = (take k) | rest | first | (takerep k) | input | isempty | (redcount k) | (foreach k) | inputfilter | until
    <stdin>, <src> = missing | (d <hex text> <ok|bad> (<value>…) <eof|err> (<tok>…))
    <out> = e | (v <value>): what the command printed, stdout values and stderr error lines in order.
    model: the iterator state machines of Inputs.v composed by create_top, the slurp wrappers, cli.process;
@@ -77,12 +78,32 @@ Definition dec_data (e : sexp) : option (fsrc fdata) :=
   | _ => if atom_is "missing" e then Some FMissing else None
   end.
 
-Inductive qkind := QId | QPair | QInputs | QInputK (k : nat).
+Inductive qkind := QId | QPair | QInputs | QInputK (k : nat) | QProg (sts : list stage) | QIter.
+Definition dec_nat (k : list N) : option nat := option_map N.to_nat (parse_N k).
+Definition dec_stage (e : sexp) : option stage :=
+  match e with
+  | SList [t; Atom k] =>
+      if atom_is "take" t then option_map StTake (dec_nat k)
+      else if atom_is "takerep" t then option_map StTakeRepeat (dec_nat k)
+      else if atom_is "redcount" t then option_map StReduceCount (dec_nat k)
+      else if atom_is "foreach" t then option_map StForeach (dec_nat k)
+      else None
+  | _ => if atom_is "rest" e then Some StRest else if atom_is "first" e then Some StFirst
+         else if atom_is "input" e then Some StInput else if atom_is "isempty" e then Some StIsEmpty
+         else if atom_is "inputfilter" e then Some StInputFilter else if atom_is "until" e then Some StUntil
+         else None
+  end.
+
 Definition dec_query (e : sexp) : option qkind :=
   match e with
-  | SList [t; Atom k] => if atom_is "inputk" t then option_map (fun n => QInputK (N.to_nat n)) (parse_N k) else None
+  | SList (t :: sts) =>
+      if atom_is "prog" t then option_map QProg (dec_list dec_stage sts)
+      else match sts with
+           | [Atom k] => if atom_is "inputk" t then option_map QInputK (dec_nat k) else None
+           | _ => None
+           end
   | _ => if atom_is "id" e then Some QId else if atom_is "pair" e then Some QPair
-         else if atom_is "inputs" e then Some QInputs else None
+         else if atom_is "inputs" e then Some QInputs else if atom_is "iter" e then Some QIter else None
   end.
 
 Definition enc_out (o : out) : sexp :=
@@ -94,6 +115,8 @@ Section RunMode.
     match q with
     | QId => q_id I | QPair => q_pair I inext | QInputs => q_inputs I inext fuel
     | QInputK k => q_input_k I inext k
+    | QProg sts => q_prog I inext fuel sts
+    | QIter => q_iter_input I inext
     end.
   Definition run_mode (fuel : nat) (null : bool) (q : qkind) (i : I) : option (list out) :=
     if null then Some (process_null I (the_query fuel q) i) else process I inext fuel (the_query fuel q) i.
@@ -117,6 +140,8 @@ Definition spec_inputs (fuel : nat) (m : mode) (null : bool) (q : qkind) (stdin 
   | true, QInputs => Some [match inputs_spec all' [] with Some a => OVal (varr a) | None => OErr end]
   | true, QInputK k => Some (inputk_spec k all')
   | false, QPair => Some (pair_spec fuel all')
+  | _, QProg _ | _, QIter =>                  (* the same consumers over the declarative list of outputs *)
+      run_mode (list out) list_next fuel null q all'
   | _, _ => None                              (* no independent description: the model stands *)
   end.
 
